@@ -6,6 +6,7 @@ import (
 	"errors"
 	"fmt"
 	"io"
+	stdlog "log"
 	"math"
 	"net"
 	"strconv"
@@ -99,13 +100,30 @@ func CtxWith(m string) context.Context {
 	return context.WithValue(context.Background(), ctxKey{}, m)
 }
 
-// CtxMarker extracts the marker ("" for background).
+type ctxKey2 struct{}
+
+// ctxOf builds the context a Val of type ctx stands for: EK "alt" carries its marker under another key
+// (and nothing under the usual one: a context of a different part of the program).
+func ctxOf(v Val) context.Context {
+	if v.EK == "alt" {
+		return context.WithValue(context.Background(), ctxKey2{}, string(v.S))
+	}
+	return CtxWith(string(v.S))
+}
+
+// CtxMarker extracts the marker ("" for background, "alt:"+marker for a context that carries one under the
+// other key only).
 func CtxMarker(c context.Context) string {
 	if c == nil {
 		return "<nil-context>"
 	}
-	s, _ := c.Value(ctxKey{}).(string)
-	return s
+	if s, ok := c.Value(ctxKey{}).(string); ok {
+		return s
+	}
+	if s, ok := c.Value(ctxKey2{}).(string); ok {
+		return "alt:" + s
+	}
+	return ""
 }
 
 func mkErr(v Val) error {
@@ -383,7 +401,7 @@ func ApplyEvent(e *zerolog.Event, ops []Op) *zerolog.Event {
 			if v.Nil {
 				e = e.Ctx(nil) // forget the context inherited from the logger: hooks see Background again
 			} else {
-				e = e.Ctx(CtxWith(string(v.S)))
+				e = e.Ctx(ctxOf(v))
 			}
 		case "getctx":
 			// Func-style read of the event's Go context, logged under K
@@ -532,7 +550,7 @@ func ApplyContext(c zerolog.Context, ops []Op) zerolog.Context {
 			if v.Nil {
 				c = c.Ctx(nil)
 			} else {
-				c = c.Ctx(CtxWith(string(v.S)))
+				c = c.Ctx(ctxOf(v))
 			}
 		case "reset":
 			c = c.Reset()
@@ -1069,6 +1087,11 @@ func (h hookImpl) Run(e *zerolog.Event, level zerolog.Level, msg string) {
 		e.Discard()
 	case "getctx":
 		e.Str(string(h.spec.K), CtxMarker(e.GetCtx()))
+	case "getctxif":
+		// a trace-id style hook: a field only when the event's context carries a marker
+		if m := CtxMarker(e.GetCtx()); m != "" && m != "<nil-context>" {
+			e.Str(string(h.spec.K), m)
+		}
 	case "noop":
 	default:
 		panic("lp: unknown hook kind " + h.spec.Kind)
@@ -1291,6 +1314,35 @@ func Start(l *zerolog.Logger, ev EventSpec) *zerolog.Event {
 	panic("lp: unknown method " + ev.Method)
 }
 
+// Direct reports whether the method is an entry point that takes the whole event in one call: the io.Writer
+// entry Logger.Write ("write"; "stdlog": the same behind a standard library log.Logger) and Print/Printf/Println.
+func Direct(method string) bool {
+	switch method {
+	case "write", "stdlog", "print", "printf", "println":
+		return true
+	}
+	return false
+}
+
+// Emit logs the event through l: Start, ApplyEvent and Finish, or the one call of a Direct method.
+func Emit(l *zerolog.Logger, ev EventSpec) {
+	m := string(ev.Msg)
+	switch ev.Method {
+	case "write":
+		l.Write(append(append([]byte{}, ev.Msg...), '\n'))
+	case "stdlog":
+		stdlog.New(l, "", 0).Print(m)
+	case "print":
+		l.Print(m)
+	case "printf":
+		l.Printf("%s", m)
+	case "println":
+		l.Println(m)
+	default:
+		Finish(ApplyEvent(Start(l, ev), ev.Ops), ev)
+	}
+}
+
 // Finish finalises the event.
 func Finish(e *zerolog.Event, ev EventSpec) {
 	m := string(ev.Msg)
@@ -1366,6 +1418,10 @@ func Run(p *Program) (res Result) {
 			}
 		case "event", "open":
 			ev := p.Events[a.I]
+			if Direct(ev.Method) {
+				Emit(get(p.NodeOf(a.I)), ev)
+				continue
+			}
 			e := Start(get(p.NodeOf(a.I)), ev)
 			e = ApplyEvent(e, ev.Ops)
 			if a.K == "open" {
@@ -1426,7 +1482,7 @@ func RunConcurrent(p *Program, g, reps int) (res Result) {
 	}
 	emit := func(i int) {
 		ev := p.Events[i]
-		Finish(ApplyEvent(Start(get(p.NodeOf(i)), ev), ev.Ops), ev)
+		Emit(get(p.NodeOf(i)), ev)
 	}
 	if g <= 1 {
 		for r := 0; r < reps; r++ {
